@@ -26,11 +26,14 @@ type iterFam struct {
 	guard           bool
 	recur           bool
 	recurBeforeSlot bool
+	body            []bodyStmt // kind "gen"
 }
 
 func (f iterFam) source() string {
 	s, l, d := f.slot, f.lim, f.step
 	switch f.kind {
+	case "gen":
+		return genSource(f.body)
 	case "guard":
 		return fmt.Sprintf("<{|i| S(%d); yield i if i < %d; recur(i + %d)}>", s, l, d)
 	case "noguard":
@@ -61,6 +64,140 @@ func (f iterFam) source() string {
 		return fmt.Sprintf("<{|i, j| S(%d); yield [i, j] if i < %d; recur(i + %d, j)}>", s, l, d)
 	}
 	panic("unknown family")
+}
+
+// bodyStmt is one statement of a generated iterator body (family "gen"): the tape draws
+// the statement list, genNext is its reference semantics.
+type bodyStmt struct {
+	kind      string // "slot", "yield", "recur"
+	slot      int    // slot: its id
+	mul, add  int64  // yield: value i*mul+add
+	valSlot   int    // yield: >0 -> the value expression also calls S(valSlot) (adds 0)
+	guard     string // yield: "", "<", ">="
+	glim      int64
+	guardSlot int   // yield: >0 -> the guard also calls S(guardSlot) (adds 0)
+	d         int64 // recur(i + d)
+}
+
+func genBody(t *tape.Tape, base int) []bodyStmt {
+	var b []bodyStmt
+	id := base
+	n := 2 + t.Intn(4)
+	haveYield, haveRecur := false, false
+	for k := 0; k < n; k++ {
+		switch t.Pick(2, 4, 2) {
+		case 0:
+			id++
+			b = append(b, bodyStmt{kind: "slot", slot: id})
+		case 1:
+			y := bodyStmt{kind: "yield", mul: []int64{1, 10, 0}[t.Pick(3, 2, 1)], add: int64(t.Intn(3))}
+			if t.Chance(1, 3) {
+				id++
+				y.valSlot = id
+			}
+			switch t.Pick(2, 4, 1) {
+			case 1:
+				y.guard, y.glim = "<", int64(1+t.Intn(6))
+			case 2:
+				y.guard, y.glim = ">=", int64(t.Intn(3))
+			}
+			if y.guard != "" && t.Chance(1, 4) {
+				id++
+				y.guardSlot = id
+			}
+			b = append(b, y)
+			haveYield = true
+		default:
+			b = append(b, bodyStmt{kind: "recur", d: int64(1 + t.Intn(3))})
+			haveRecur = true
+		}
+	}
+	if !haveYield {
+		b = append(b, bodyStmt{kind: "yield", mul: 1, guard: "<", glim: int64(2 + t.Intn(5))})
+	}
+	if !haveRecur && t.Chance(4, 5) {
+		b = append(b, bodyStmt{kind: "recur", d: int64(1 + t.Intn(2))})
+	}
+	return b
+}
+
+func genSource(b []bodyStmt) string {
+	var parts []string
+	for _, st := range b {
+		switch st.kind {
+		case "slot":
+			parts = append(parts, fmt.Sprintf("S(%d)", st.slot))
+		case "yield":
+			v := fmt.Sprintf("(i * %d + %d)", st.mul, st.add)
+			if st.valSlot > 0 {
+				v = fmt.Sprintf("(i * %d + %d + S(%d) - %d)", st.mul, st.add, st.valSlot, st.valSlot)
+			}
+			y := "yield " + v
+			if st.guard != "" {
+				lhs := "i"
+				if st.guardSlot > 0 {
+					lhs = fmt.Sprintf("(i + S(%d) - %d)", st.guardSlot, st.guardSlot)
+				}
+				y += fmt.Sprintf(" if %s %s %d", lhs, st.guard, st.glim)
+			}
+			parts = append(parts, y)
+		default:
+			parts = append(parts, fmt.Sprintf("recur(i + %d)", st.d))
+		}
+	}
+	return "<{|i| " + strings.Join(parts, "; ") + "}>"
+}
+
+// genNext is one `next` of a generated body with argument i: every statement is evaluated
+// in order; a guarded yield whose condition is false raises StopIterErr on the spot; the
+// first yield reached supplies the value; the most recent recur supplies the next argument
+// (also when the activation ends in an error afterwards). faultIdx: the slot invocation
+// (counted within this activation) that raises, or -1.
+func genNext(b []bodyStmt, i int64, faultIdx int) (val int64, stop, errored bool, ni int64, trace []int) {
+	ni = i
+	yielded := false
+	call := func(id int) bool {
+		trace = append(trace, id)
+		return len(trace)-1 == faultIdx
+	}
+	for _, st := range b {
+		switch st.kind {
+		case "slot":
+			if call(st.slot) {
+				return 0, false, true, ni, trace
+			}
+		case "yield":
+			if st.guard != "" {
+				if st.guardSlot > 0 && call(st.guardSlot) {
+					return 0, false, true, ni, trace
+				}
+				ok := i < st.glim
+				if st.guard == ">=" {
+					ok = i >= st.glim
+				}
+				if !ok {
+					return 0, true, false, ni, trace
+				}
+			}
+			if st.valSlot > 0 && call(st.valSlot) {
+				return 0, false, true, ni, trace
+			}
+			if !yielded {
+				yielded, val = true, i*st.mul+st.add
+			}
+		default:
+			ni = i + st.d
+		}
+	}
+	return val, false, false, ni, trace
+}
+
+func traceIDs(r harness.Result) []int {
+	ids := make([]int, 0, len(r.Trace))
+	for _, e := range r.Trace {
+		ids = append(ids, e.ID)
+	}
+	return ids
 }
 
 type iterState struct {
@@ -231,7 +368,7 @@ func (c *c14Check) Run(seed, run uint64, rec []uint32, st Stats, only *Viol) []V
 	}
 	s.Histories++
 	// 1..2 generator literals
-	kinds := []string{"guard", "noguard", "recurfirst", "twoyields", "norecur", "kw", "slotafterrecur", "implicit", "implicit2", "falsyyield", "twoparam", "nilyield"}
+	kinds := []string{"guard", "noguard", "recurfirst", "twoyields", "norecur", "kw", "slotafterrecur", "implicit", "implicit2", "falsyyield", "twoparam", "nilyield", "gen", "gen", "gen", "gen", "gen", "gen"}
 	nf := 1 + t.Intn(2)
 	fams := make([]iterFam, nf)
 	env := object.NewEnclosedEnv(c.it.Global)
@@ -251,6 +388,9 @@ func (c *c14Check) Run(seed, run uint64, rec []uint32, st Stats, only *Viol) []V
 		f.guard = k != "noguard"
 		f.recur = k != "norecur"
 		f.recurBeforeSlot = k == "slotafterrecur"
+		if k == "gen" {
+			f.body = genBody(t, 100*(i+1))
+		}
 		fams[i] = f
 		s.Families[k]++
 		r := eval(fmt.Sprintf("g%d := %s", i, f.source()), nil)
@@ -353,13 +493,43 @@ func (c *c14Check) Run(seed, run uint64, rec []uint32, st Stats, only *Viol) []V
 			f := fams[h.fam]
 			fault := t.Chance(1, 8)
 			var plan map[int]harness.Ret
+			faultIdx := -1
 			if fault {
-				plan = map[int]harness.Ret{0: {Kind: "raise", S: "ValueErr", Msg: "injnext"}}
+				faultIdx = 0
+				if f.kind == "gen" {
+					faultIdx = t.Intn(3)
+				}
+				plan = map[int]harness.Ret{faultIdx: {Kind: "raise", S: "ValueErr", Msg: "injnext"}}
 				s.Faults++
 			}
 			r := eval(name+".next", plan)
 			s.Ops["next"]++
 			inter = append(inter, fmt.Sprintf("n%d", hi))
+			if f.kind == "gen" {
+				val, stop, errored, ni, trace := genNext(f.body, h.i, faultIdx)
+				h.i = ni
+				handles[hi] = h
+				if got := traceIDs(r); fmt.Sprint(got) != fmt.Sprint(trace) {
+					fail("next", f.kind, "evalcount", fmt.Sprintf("callee invocations %v (every statement of the body once, up to the one that ends the activation)", trace), fmt.Sprintf("%v; result %s", got, describe(r)))
+					break
+				}
+				switch {
+				case errored:
+					if r.Err == nil || r.Err.Kind() != "ValueErr" || r.Err.Msg != "injnext" {
+						fail("next", f.kind, "fault", "Raise(ValueErr: injnext)", describe(r))
+					}
+				case stop:
+					s.Stops++
+					if r.Err == nil || r.Err.Kind() != "StopIterErr" {
+						fail("next", f.kind, "stop", "Raise(StopIterErr)", describe(r))
+					}
+				default:
+					if r.Err != nil || r.Panic != "" || r.Obj == nil || r.Obj.Inspect() != fmt.Sprint(val) {
+						fail("next", f.kind, "value", fmt.Sprint(val), describe(r))
+					}
+				}
+				break
+			}
 			val, stop, errored, ns := f.next(h, fault)
 			handles[hi] = ns
 			if n := countSlot(r, f.slot); n != 1 {
@@ -386,7 +556,23 @@ func (c *c14Check) Run(seed, run uint64, rec []uint32, st Stats, only *Viol) []V
 			hi := names[name]
 			h := handles[hi]
 			f := fams[h.fam]
-			if !f.finite() {
+			genFinite := false
+			var genVals []int64
+			var genTrace []int
+			if f.kind == "gen" {
+				cur := h.i
+				for k := 0; k < 40; k++ {
+					v, stop, _, ni, tr := genNext(f.body, cur, -1)
+					genTrace = append(genTrace, tr...)
+					if stop {
+						genFinite = true
+						break
+					}
+					genVals = append(genVals, v)
+					cur = ni
+				}
+			}
+			if (f.kind == "gen" && !genFinite) || (f.kind != "gen" && !f.finite()) {
 				a--
 				s.Actions--
 				if t.Chance(1, 4) {
@@ -397,7 +583,7 @@ func (c *c14Check) Run(seed, run uint64, rec []uint32, st Stats, only *Viol) []V
 			var vals []int64
 			var svals []string
 			cur := h
-			for guard := 0; guard < 100; guard++ {
+			for guard := 0; guard < 100 && f.kind != "gen"; guard++ {
 				sv, stop, _, _ := f.next(cur, false)
 				v, _, _, ns := f.nextInt(cur, false)
 				if stop {
@@ -409,6 +595,12 @@ func (c *c14Check) Run(seed, run uint64, rec []uint32, st Stats, only *Viol) []V
 				vals = append(vals, v)
 				svals = append(svals, sv)
 				cur = ns
+			}
+			if f.kind == "gen" {
+				vals = genVals
+				for _, v := range genVals {
+					svals = append(svals, fmt.Sprint(v))
+				}
 			}
 			if (f.kind == "twoparam" || f.kind == "nilyield") && op != 3 {
 				op = 3 // arithmetic chains need int values: use A for these families
@@ -440,7 +632,11 @@ func (c *c14Check) Run(seed, run uint64, rec []uint32, st Stats, only *Viol) []V
 				fail(opn, f.kind, "value", want, describe(r))
 				break
 			}
-			if n := countSlot(r, f.slot); n != len(vals)+1 {
+			if f.kind == "gen" {
+				if got := traceIDs(r); fmt.Sprint(got) != fmt.Sprint(genTrace) {
+					fail(opn, f.kind, "evalcount", fmt.Sprintf("callee invocations %v", genTrace), fmt.Sprint(got))
+				}
+			} else if n := countSlot(r, f.slot); n != len(vals)+1 {
 				fail(opn, f.kind, "evalcount", fmt.Sprintf("%d body evaluations", len(vals)+1), fmt.Sprintf("%d", n))
 			}
 			// handle state unchanged (checked by later next calls)
@@ -487,7 +683,7 @@ func (c *c14Check) Evidence(st Stats, tier string) (map[string]interface{}, []st
 	cov := map[string]interface{}{
 		"evaluations":          s.Actions,
 		"distinct_nontrivial":  len(s.Interleav),
-		"rule":                 "one case = a history of up to 25 tape-chosen actions (new from the literal, new from a handle, next with optional body fault, A, list chain, reduce chain, _iter copy, alias) by logical clients over up to 4+3 names bound to iterators made from 1..2 literals of 7 body families, each action a separately parsed line in one shared scope; distinct_nontrivial = distinct (operation, handle) sequences",
+		"rule":                 "one case = a history of up to 25 tape-chosen actions (new from the literal, new from a handle, next with optional body fault, A, list chain, reduce chain, _iter copy, alias) by logical clients over up to 4+3 names bound to iterators made from 1..2 literals whose body is one of 12 fixed families or a tape-generated statement list (slots, plain and guarded yields with effectful values and guards, recurs) with its own reference semantics, each action a separately parsed line in one shared scope; distinct_nontrivial = distinct (operation, handle) sequences",
 		"samples":              s.Samples,
 		"histories":            s.Histories,
 		"ops":                  s.Ops,
